@@ -72,6 +72,9 @@ def classify(o):
         # the parser then treats the token like an absent version (no delimiter required, target cut in front of it)
         if m and (m.group(1) == b'0' or len(m.group(1)) > 1 or len(m.group(2)) > 1):
             cls['kind'] = 'version-token-with-major-0-or-multiple-digits'
+            cls['token'] = 'multi-digit' if (len(m.group(1)) > 1 or len(m.group(2)) > 1) else 'major-0'
+            before = w[g:g + p][:m.start()][-1:]
+            cls['delimited'] = before in ((b' ',) if o['relaxed'] == 0 else (b' ', b'\t', b'\x0b', b'\x0c', b'\r'))
     return cls
 
 
@@ -91,8 +94,8 @@ def run(ctx):
     for i in prej:
         o = outs[i]
         cls = classify(o)
-        key = cls['kind'] + cls['mode'] + cls['got']
-        if shown.get(key, 0) >= (3 if cls['kind'] == 'other' else 1) or len(ctx.violations) >= 5:
+        key = repr(sorted(cls.items()))      # one witness per distinct class (known-finding entries match on class fields)
+        if shown.get(key, 0) >= (3 if cls['kind'] == 'other' else 1) or len(ctx.violations) >= 6:
             continue
         shown[key] = shown.get(key, 0) + 1
         ctx.violation(('UBSan reported undefined behaviour; ' if o['ub'] else '') + 'request line %r (relaxed_header_parser=%d): parser reported %s, which RequestLine.tla does not allow' % (
